@@ -69,7 +69,7 @@ def run_suites(ctx, model_ok, deep, plan):
             if model_ok:
                 eo, do, crash = w.run()
             else:
-                rc, eo, err = ctx.run_exec([o.ex for o in w.ops])
+                rc, eo, err = ctx.run_exec([o.ex for o in w.ops], w.exec_env)
                 crash = (len(eo), rc, err) if (rc != 0 or len(eo) != len(w.ops)) else None
                 eo = [W.canon_exec(l) for l in eo] + ["<crash>"] * (len(w.ops) - len(eo))
                 do = None
